@@ -178,7 +178,7 @@ REG.macro("mr_eff", ["c"],
           "_importers=(S_eff(c) if unwrap(c.import_) else O_eff(c)), _importees=(O_eff(c) if unwrap(c.import_) else S_eff(c)), "
           "_importer_specified_as_rule_subject=unwrap(c.import_))")
 REG.macro("rule_ok_cfg", ["c"], "(not cfg_bad(c)) and not br_inconsistent(b_eff(c))")
-_OPQ = ["realised_b", "abstract_b", "realised_m_b", "missing_b", "G_realised_b", "G_abstract_b", "G_or_f", "G_or_r", "G_om_f", "G_om_r", "Q_edge", "Q_else_f", "Q_else_r"]
+_OPQ = ["realised_b", "abstract_b", "realised_m_b", "missing_b", "G_realised_b", "G_abstract_b", "G_or_f", "G_or_r", "G_om_f", "G_om_r", "Q_edge", "Q_else_f", "Q_else_r", "some_edge", "some_missing_edge", "some_else_f", "some_else_r", "some_missing_else_f", "some_missing_else_r"]
 REG.add(Contract("Rule.assert_applies", module=M_RULE, kind="method",
                  params=dict(self="Rule", evaluable="EvaluableArchitectureGraph"), returns="None", modifies=["self"],
                  requires=["WF(evaluable._graph)"],
@@ -194,7 +194,12 @@ REG.add(Contract("Rule.assert_applies", module=M_RULE, kind="method",
                  # C15: evaluation rewrites nothing but the alias normalisation of the rule's own configuration
                  ensures=["self._rule_matcher_class == old(self)._rule_matcher_class",
                           "self._modules_to_check_to_be_specified_next == old(self)._modules_to_check_to_be_specified_next",
-                          "implies(not old(self)._configuration.rule_object_anything, self._configuration == old(self)._configuration)"],
+                          "implies(not old(self)._configuration.rule_object_anything, self._configuration == old(self)._configuration)",
+                          "implies(old(self)._configuration.rule_object_anything, (not self._configuration.rule_object_anything) and self._configuration.except_present "
+                          "and same_elements(unwrap(self._configuration.modules_to_check), dedup(unwrap(old(self)._configuration.modules_to_check))) "
+                          "and self._configuration.modules_to_check_against == self._configuration.modules_to_check "
+                          "and self._configuration.should == old(self)._configuration.should and self._configuration.should_only == old(self)._configuration.should_only "
+                          "and self._configuration.should_not == old(self)._configuration.should_not and self._configuration.import_ == old(self)._configuration.import_)"],
                  opaque=_OPQ, properties=["C01", "C03", "C11", "C12", "C13", "C15"]))
 REG.add(Contract("Rule._assert_anything_only_used_with_should_not", module=M_RULE, kind="method", params=RULE, returns="None",
                  raises=[("ImproperlyConfigured", "self._configuration.rule_object_anything and not self._configuration.should_not")],
